@@ -2,7 +2,7 @@
 """Regenerates the table of seeded changes in DESIGN.md section 16 from /verif/seeded/*/meta.json."""
 import json, glob, re, os
 rows = []
-for m in sorted(glob.glob('/verif/seeded/*/meta.json'), key=lambda p: (p.split('/')[-2].split('-')[0], int(p.split('/')[-2].split('-')[1]))):
+for m in sorted([x for x in glob.glob('/verif/seeded/*/meta.json') if 'not-evaluable' not in x], key=lambda p: (p.split('/')[-2].split('-')[0], int(p.split('/')[-2].split('-')[1]))):
     name = m.split('/')[-2]
     d = json.load(open(m))
     det = d.get('detected_by', [])
